@@ -670,9 +670,21 @@ fn allowed(c: &CaseSpec, path: &str, e: &Entry) -> bool {
     false
 }
 
-fn signature_for(c: &CaseSpec, path: &str, e: &Entry, pre_existing: bool) -> &'static str {
+/// The recorded finding is the cancellation of the ancillary task (`join_set.abort_all()`) when an
+/// IMMUTABLE download fails: only cases with such a failure can show it. A scratch directory left
+/// behind in any other case (ancillary verification failed, move into place failed, everything
+/// succeeded) has another cause.
+fn temp_dir_signature(immutable_download_failed: bool) -> &'static str {
+    if immutable_download_failed {
+        "C19 ancillary temporary directory left behind"
+    } else {
+        "C19 ancillary temporary directory left behind although no immutable download failed"
+    }
+}
+
+fn signature_for(c: &CaseSpec, path: &str, e: &Entry, pre_existing: bool, imm_failed: bool) -> &'static str {
     if path.starts_with("ancillary-") {
-        return "C19 ancillary temporary directory left behind";
+        return temp_dir_signature(imm_failed);
     }
     match c.side {
         Side::Imm => {
@@ -697,8 +709,14 @@ fn signature_for(c: &CaseSpec, path: &str, e: &Entry, pre_existing: bool) -> &'s
                     "C19 immutable archive entry outside immutable/ kept (top-level file)"
                 }
             } else if let Some(rest) = path.strip_prefix("immutable/") {
-                if is_trio_name(rest).is_some() {
-                    "C19 immutable file outside the requested range kept"
+                if let Some(n) = is_trio_name(rest) {
+                    if n > c.last {
+                        // above the certified beacon: the sweep's own bound (0..=beacon, +1 only
+                        // when ancillary files are restored) excludes it
+                        "C19 immutable file beyond the certified beacon kept"
+                    } else {
+                        "C19 immutable file outside the requested range kept"
+                    }
                 } else {
                     "C19 unexpected entry inside immutable/ kept"
                 }
@@ -804,6 +822,8 @@ fn run_case(
     }
     let after = common::list_tree(&target);
     let ok = outcome.is_ok();
+    // the client reports which download failed: "... for immutable_file_000NN ..." for an immutable archive
+    let imm_failed = matches!(&outcome, Err(e) if e.contains("immutable_file_"));
     m.count(&format!("class.{}.{}", c.class, if ok { "ok" } else { "err" }));
     m.count(if c.include_ancillary { "with_ancillary" } else { "without_ancillary" });
     m.count(&format!("network.{}", c.network));
@@ -850,13 +870,13 @@ fn run_case(
             if prev.is_none() {
                 extra_dirs += 1;
                 if path.starts_with("ancillary-") && !path.contains('/') {
-                    flagged.push((path.clone(), "C19 ancillary temporary directory left behind"));
+                    flagged.push((path.clone(), temp_dir_signature(imm_failed)));
                 }
             }
             continue;
         }
         if !allowed(c, path, e) {
-            flagged.push((path.clone(), signature_for(c, path, e, prev.is_some())));
+            flagged.push((path.clone(), signature_for(c, path, e, prev.is_some(), imm_failed)));
         }
     }
     for (path, e) in &before {
